@@ -56,6 +56,18 @@ class Module:
     def sha(self, node):
         return hashlib.sha256(self.segment(node).encode()).hexdigest()[:16]
 
+    def ast_sha(self, node):
+        """hash of the code the verifier actually reads: the AST without positions, docstrings and comments, so that
+        re-flowing lines, editing a comment or a docstring does not count as a change of the function"""
+        import copy
+        n = copy.deepcopy(node)
+        for sub in ast.walk(n):
+            body = getattr(sub, 'body', None)
+            if isinstance(sub, (ast.FunctionDef, ast.ClassDef, ast.AsyncFunctionDef)) and isinstance(body, list) and body and \
+                    isinstance(body[0], ast.Expr) and isinstance(body[0].value, ast.Constant) and isinstance(body[0].value.value, str):
+                sub.body = body[1:] or [ast.Pass()]
+        return hashlib.sha256(ast.dump(n, include_attributes=False).encode()).hexdigest()[:16]
+
     def is_property(self, cls, name):
         fn = self.functions.get(cls + '.' + name)
         if fn is None:
